@@ -152,6 +152,7 @@ def parseOp (toks : List String) : Option Op :=
     let mode ← match kv? rest "mode" with
       | some "acked" => some Mode.acked
       | some "early" => some Mode.early
+      | some "dropped" => some Mode.acked      -- the caller drops the result receiver: same obligations as `acked`
       | _ => none
     let rows ← (kv? rest "rows").bind parseRows
     if rows.isEmpty then none else some (.stream (← nat? rest "s") mode rows)
